@@ -36,7 +36,7 @@ def _vars(t, acc=None, seen=None):
     return acc
 
 
-def check_sliced(solver, pc, conds, timeout_ms=60000):
+def check_sliced(solver, pc, conds, timeout_ms=60000, integral=None):
     """pc => every cond, decided cond by cond with only the path-condition literals that share variables with it
     (rings have disjoint coordinates, so this is the cone of influence).  -> ('unsat'|'sat'|'unknown', model, seconds, queries)"""
     pcv = [(_vars(l), l) for l in pc]
@@ -63,6 +63,12 @@ def check_sliced(solver, pc, conds, timeout_ms=60000):
             r2 = str(solver.check())
             nq += 1
             m = solver.model() if r2 == 'sat' else None
+            if r2 == 'sat' and integral:
+                # integer coordinate subtype: prefer an integral counterexample (the proof itself is done over the reals)
+                solver.add(*[z3.IsInt(v) for v in integral])
+                if str(solver.check()) == 'sat':
+                    m = solver.model()
+                nq += 1
             solver.pop()
             if r2 == 'sat':
                 return 'sat', m, total, nq
@@ -95,7 +101,7 @@ def explore(polys, lead_rings=0, timeout=300, max_paths=4000, int_dtype=None):
     values.set_mul_mode('exact')
     t0 = time.time()
     it = Interp()
-    V = z3.Int if int_dtype else z3.Real       # polynomial sign conditions are decided over the reals (nlsat); unsat transfers to the integers
+    V = z3.Real       # polynomial sign conditions are decided over the reals (nlsat); unsat transfers to the integers, integral witnesses on demand
     rings = []          # (vertex list closed, is_shell, in_slice)
     poly_offsets = []
     for k in range(lead_rings):
@@ -172,7 +178,7 @@ def explore(polys, lead_rings=0, timeout=300, max_paths=4000, int_dtype=None):
                 a_shell = shoelace2(rings[idx[0]][0])
                 valid = z3.And(*[z3.Or(z3.And(a_shell > 0, shoelace2(rings[i][0]) < 0), z3.And(a_shell < 0, shoelace2(rings[i][0]) > 0)) for i in idx[1:]])
                 conds.append(z3.Not(valid))
-        r_, m, dt, k = check_sliced(ex.solver, ex.pc, conds)
+        r_, m, dt, k = check_sliced(ex.solver, ex.pc, conds, integral=allv if int_dtype else None)
         ex.solver_s += dt
         nq += k
         if r_ == 'sat':
@@ -255,8 +261,9 @@ def oriented_task(kind, deriv, timeout=600, max_paths=3000, base=None, sort='rea
     values.set_mul_mode('exact')
     t0 = time.time()
     bound = B24
-    if np.dtype(dtype).kind in 'iu':
-        sort, bound = 'int', (100 if np.dtype(dtype).itemsize == 2 else 1 << 12)     # integral, representable counterexamples
+    integral = np.dtype(dtype).kind in 'iu'
+    if integral:
+        sort, bound = 'real', ((1 << 14) if np.dtype(dtype).itemsize == 2 else 1 << 24)     # proved over the reals; integral, representable counterexamples are searched on demand
     ts = T.TagSpace(sort=sort)
     specs = base if base is not None else C15_BASE[kind]
     src, _ = T.build_array(ts, kind, specs, dtype)
@@ -340,7 +347,7 @@ def oriented_task(kind, deriv, timeout=600, max_paths=3000, base=None, sort='rea
             ex.solver.pop()
             viol = {'model': model_ints(m, ts.zvars) if m is not None else {}, 'problems': problems}
             break
-        r_, m, dt, k = check_sliced(ex.solver, ex.pc, conds)
+        r_, m, dt, k = check_sliced(ex.solver, ex.pc, conds, integral=ts.zvars if integral else None)
         ex.solver_s += dt
         nq += k
         if r_ == 'sat':
